@@ -84,6 +84,8 @@ def m_from_identity(I, st, fr, args, path, gargs, t):
 def m_into(I, st, fr, args, path, gargs, t):
     if len(gargs) == 2 and gargs[0] == gargs[1]:
         return args[0]
+    if len(gargs) == 2 and all('TokenStream' in g for g in gargs):
+        return Opaque(gargs[1], 'tokens')
     raise Stop('Into %s' % (gargs,))
 
 
@@ -553,3 +555,32 @@ _INHERIT = re.compile(r'^(<' + INT + r' as core::ops::(Add|Sub|Mul|Neg|Shl|Shr|A
 def is_inherit_overflow(path):
     """core functions carrying #[rustc_inherit_overflow_checks]: they panic on overflow only if the *calling crate* is built with overflow checks"""
     return bool(_INHERIT.match(path or ''))
+
+
+# ----------------------------------------------------------------------------- proc-macro plumbing (Dec!): tokens emitted are recorded as notes
+@model(r'proc_macro2::TokenStream::new|core::string::String::remove|core::string::String::(len|is_empty|push_str|push)')
+def m_pm_opaque(I, st, fr, args, path, gargs, t):
+    return Opaque('pm', path.rsplit('::', 1)[1])
+
+
+@model(r'core::str::<impl str>::(starts_with|ends_with|contains)')
+def m_str_pred(I, st, fr, args, path, gargs, t):
+    return K(st.choose(2), 'bool')
+
+
+@model(r'quote::__private::push_(\w+)')
+def m_quote_push(I, st, fr, args, path, gargs, t):
+    what = path.rsplit('push_', 1)[1]
+    arg = None
+    for a in args:
+        if isinstance(a, SliceVal) and a.tag.startswith('str:'):
+            arg = a.tag[4:]
+    st.note(('tok', what, arg))
+    return UNIT
+
+
+@model(r'<' + INT + r' as quote::ToTokens>::to_tokens')
+def m_to_tokens(I, st, fr, args, path, gargs, t):
+    v = deref(I, st, args[0])
+    st.note(('tok', 'lit', pfreeze(st.norm(v.p)), v.ty, st.itv(v)))
+    return UNIT
